@@ -29,6 +29,8 @@ pub struct GlueAdapter {
 	pub arch_data: Mutex<Option<Vec<u8>>>,
 	/// the PIBD segments this node serves (`get_*_segment`)
 	pub segs: Mutex<Option<SegStore>>,
+	/// the adapter method that fails (once) with a chain error
+	pub fail: Mutex<Option<String>>,
 }
 
 #[derive(Clone)]
@@ -43,6 +45,16 @@ impl GlueAdapter {
 	fn push(&self, s: String) {
 		self.log.lock().unwrap().push(s);
 	}
+	/// `Err(chain::Error)` when this method is the one scripted to fail (used up by the failure)
+	fn failing<T>(&self, name: &str) -> Result<(), grin_chain::Error> {
+		let mut f = self.fail.lock().unwrap();
+		if f.as_deref() == Some(name) {
+			*f = None;
+			let _ = std::marker::PhantomData::<T>;
+			return Err(grin_chain::Error::Other(format!("verif: {} fails", name)));
+		}
+		Ok(())
+	}
 }
 
 fn addr_txt(a: &PeerAddr) -> String {
@@ -56,16 +68,19 @@ fn addr_txt(a: &PeerAddr) -> String {
 impl ChainAdapter for GlueAdapter {
 	fn total_difficulty(&self) -> Result<Difficulty, grin_chain::Error> {
 		self.push("td".into());
+		self.failing::<()>("total_difficulty")?;
 		Ok(Difficulty::from_num(self.td))
 	}
 	fn total_height(&self) -> Result<u64, grin_chain::Error> {
 		self.push("height".into());
+		self.failing::<()>("total_height")?;
 		Ok(self.height)
 	}
 	fn transaction_received(&self, tx: Transaction, stem: bool) -> Result<bool, grin_chain::Error> {
 		// (the hash of a transaction with inputs depends on the input representation the protocol version
 		// selects; the first kernel's hash - what the TrackingAdapter goes by - does not)
 		self.push(format!("tx:{}:{}", tx.kernels().first().map(|k| hex(k.hash().as_bytes())).unwrap_or_else(|| "-".into()), if stem { 1 } else { 0 }));
+		self.failing::<()>("transaction_received")?;
 		Ok(true)
 	}
 	fn get_transaction(&self, h: Hash) -> Option<Transaction> {
@@ -78,26 +93,32 @@ impl ChainAdapter for GlueAdapter {
 	}
 	fn tx_kernel_received(&self, h: Hash, _p: &PeerInfo) -> Result<bool, grin_chain::Error> {
 		self.push(format!("kernel:{}", hex(h.as_bytes())));
+		self.failing::<()>("tx_kernel_received")?;
 		Ok(true)
 	}
 	fn block_received(&self, b: Block, _p: &PeerInfo, o: grin_chain::Options) -> Result<bool, grin_chain::Error> {
 		self.push(format!("block:{}:{}", hex(b.hash().as_bytes()), o.bits()));
+		self.failing::<()>("block_received")?;
 		Ok(true)
 	}
 	fn compact_block_received(&self, cb: CompactBlock, _p: &PeerInfo) -> Result<bool, grin_chain::Error> {
 		self.push(format!("cblock:{}", hex(cb.hash().as_bytes())));
+		self.failing::<()>("compact_block_received")?;
 		Ok(true)
 	}
 	fn header_received(&self, bh: BlockHeader, _p: &PeerInfo) -> Result<bool, grin_chain::Error> {
 		self.push(format!("header:{}", hex(bh.hash().as_bytes())));
+		self.failing::<()>("header_received")?;
 		Ok(true)
 	}
 	fn headers_received(&self, bh: &[BlockHeader], _p: &PeerInfo) -> Result<bool, grin_chain::Error> {
 		self.push(format!("headers:{}", bh.len()));
+		self.failing::<()>("headers_received")?;
 		Ok(true)
 	}
 	fn locate_headers(&self, l: &[Hash]) -> Result<Vec<BlockHeader>, grin_chain::Error> {
 		self.push(format!("locate:{}", l.len()));
+		self.failing::<()>("locate_headers")?;
 		Ok(self.block.lock().unwrap().iter().map(|b| b.header.clone()).collect())
 	}
 	fn get_block(&self, h: Hash, _p: &PeerInfo) -> Option<Block> {
@@ -121,6 +142,7 @@ impl ChainAdapter for GlueAdapter {
 	}
 	fn txhashset_archive_header(&self) -> Result<BlockHeader, grin_chain::Error> {
 		self.push("archhdr".into());
+		self.failing::<()>("txhashset_archive_header")?;
 		match &*self.arch_hdr.lock().unwrap() {
 			Some(h) => Ok(h.clone()),
 			None => Err(grin_chain::Error::Other("no archive".into())),
@@ -138,6 +160,7 @@ impl ChainAdapter for GlueAdapter {
 		let mut data = vec![];
 		let _ = f.read_to_end(&mut data);
 		self.push(format!("archive:{}:{}:{}", hex(h.as_bytes()), data.len(), checksum(&data)));
+		self.failing::<()>("txhashset_write")?;
 		Ok(false)
 	}
 	fn get_tmp_dir(&self) -> std::path::PathBuf {
@@ -165,18 +188,22 @@ impl ChainAdapter for GlueAdapter {
 	}
 	fn receive_bitmap_segment(&self, _b: Hash, _o: Hash, _s: Segment<grin_chain::txhashset::BitmapChunk>) -> Result<bool, grin_chain::Error> {
 		self.push("seg:bitmap".into());
+		self.failing::<()>("receive_bitmap_segment")?;
 		Ok(false)
 	}
 	fn receive_output_segment(&self, _b: Hash, _r: Hash, _s: Segment<OutputIdentifier>) -> Result<bool, grin_chain::Error> {
 		self.push("seg:output".into());
+		self.failing::<()>("receive_output_segment")?;
 		Ok(false)
 	}
 	fn receive_rangeproof_segment(&self, _b: Hash, _s: Segment<RangeProof>) -> Result<bool, grin_chain::Error> {
 		self.push("seg:rproof".into());
+		self.failing::<()>("receive_rangeproof_segment")?;
 		Ok(false)
 	}
 	fn receive_kernel_segment(&self, _b: Hash, _s: Segment<TxKernel>) -> Result<bool, grin_chain::Error> {
 		self.push("seg:kernel".into());
+		self.failing::<()>("receive_kernel_segment")?;
 		Ok(false)
 	}
 }
@@ -306,8 +333,12 @@ impl Node {
 			}
 		}
 		let log: Vec<String> = self.ad.log.lock().unwrap()[before..].to_vec();
+		let label = match what.strip_prefix("@f:") {
+			Some(rest) => format!("codec glue recvf {}", rest),
+			None => format!("codec glue recv {}", what),
+		};
 		cx.line(
-			&format!("codec glue recv {}", what),
+			&label,
 			&format!(
 				"[{}]|{}|closed:{}",
 				log.join(";"),
@@ -376,6 +407,7 @@ fn conversation(cx: &mut Lx, work: &std::path::Path, _id: usize, accept: bool, r
 		arch_hdr: Mutex::new(None),
 		arch_data: Mutex::new(None),
 		segs: Mutex::new(None),
+		fail: Mutex::new(None),
 	});
 	let ad2: Arc<GlueAdapter> = ad.clone();
 	let listener = TcpListener::bind("127.0.0.1:0").unwrap();
@@ -586,6 +618,70 @@ fn conversation(cx: &mut Lx, work: &std::path::Path, _id: usize, accept: bool, r
 		cx.stat("glue: no segment store (payload generator produced no decodable segment)");
 	}
 
+	// --- the underlying adapter FAILS (chain error) in every method whose result the handler passes through `?`:
+	//     the handler stops there, nothing is answered, the connection stays; what the TrackingAdapter
+	//     remembered before handing on stays remembered
+	{
+		let fail = |n: &Node, m: &str| *n.ad.fail.lock().unwrap() = Some(m.to_string());
+		let (ptd, ph) = (cx.rng.below(1 << 50), cx.rng.below(1 << 40));
+		let pingf = frame_of(Type::Ping, &Ping { total_difficulty: Difficulty::from_num(ptd), height: ph }, pv);
+		fail(&n, "total_difficulty");
+		n.recv(cx, &format!("@f:total_difficulty ping {} {}", ptd, ph), &pingf, 2, false, false);
+		fail(&n, "total_height");
+		n.recv(cx, &format!("@f:total_height ping {} {}", ptd, ph), &pingf, 3, false, false);
+		let kf = hash32(&mut cx.rng);
+		fail(&n, "tx_kernel_received");
+		n.recv(cx, &format!("@f:tx_kernel_received kernel {}", hx(kf)), &frame_of(Type::TransactionKernel, &kf, pv), 1, false, false);
+		send_kernel(&mut n, cx, kf);
+		let tf = mk_tx(cx, 1);
+		fail(&n, "transaction_received");
+		n.recv(cx, &format!("@f:transaction_received tx {}", hx(tf.kernels()[0].hash())), &frame_of(Type::Transaction, &tf, pv), 1, false, false);
+		send_tx(&mut n, cx, &tf);
+		let bf = cx.block(1, 1);
+		fail(&n, "block_received");
+		n.recv(cx, &format!("@f:block_received block {}", hx(bf.hash())), &frame_of(Type::Block, &bf, pv), 1, false, false);
+		send_header(&mut n, cx, &bf.header);
+		let cbf: CompactBlock = cx.block(1, 1).into();
+		fail(&n, "compact_block_received");
+		n.recv(cx, &format!("@f:compact_block_received cblock {}", hx(cbf.hash())), &frame_of(Type::CompactBlock, &cbf, pv), 1, false, false);
+		send_cblock(&mut n, cx, &cbf);
+		let hf = cx.header();
+		fail(&n, "header_received");
+		n.recv(cx, &format!("@f:header_received header {}", hx(hf.hash())), &frame_of(Type::Header, &hf, pv), 1, false, false);
+		send_header(&mut n, cx, &hf);
+		fail(&n, "headers_received");
+		n.recv(cx, "@f:headers_received headers 2", &frame_of(Type::Headers, &hs_in, pv), 1, false, false);
+		let locf = Locator { hashes: vec![hash32(&mut cx.rng)] };
+		fail(&n, "locate_headers");
+		n.recv(cx, "@f:locate_headers getheaders 1 []", &frame_of(Type::GetHeaders, &locf, pv), 1, false, false);
+		fail(&n, "txhashset_archive_header");
+		n.recv(cx, "@f:txhashset_archive_header txhashsetreq 1 1 - []", &frame_of(Type::TxHashSetRequest, &treq, pv), 1, false, false);
+		if let Some(store) = segs.clone() {
+			use grin_p2p::msg::{OutputBitmapSegmentResponse, OutputSegmentResponse, SegmentResponse};
+			let r_bitmap = OutputBitmapSegmentResponse { block_hash: bh, segment: store.bitmap.0.clone().into(), output_root: store.bitmap.1 };
+			let r_output = OutputSegmentResponse { response: SegmentResponse { block_hash: bh, segment: store.output.0.clone() }, output_bitmap_root: store.output.1 };
+			let r_rproof = SegmentResponse { block_hash: bh, segment: store.rproof.clone() };
+			let r_kernel = SegmentResponse { block_hash: bh, segment: store.kernel.clone() };
+			fail(&n, "receive_bitmap_segment");
+			n.recv(cx, "@f:receive_bitmap_segment seg bitmap", &frame_of(Type::OutputBitmapSegment, &r_bitmap, pv), 1, false, false);
+			fail(&n, "receive_output_segment");
+			n.recv(cx, "@f:receive_output_segment seg output", &frame_of(Type::OutputSegment, &r_output, pv), 1, false, false);
+			fail(&n, "receive_rangeproof_segment");
+			n.recv(cx, "@f:receive_rangeproof_segment seg rproof", &frame_of(Type::RangeProofSegment, &r_rproof, pv), 1, false, false);
+			fail(&n, "receive_kernel_segment");
+			n.recv(cx, "@f:receive_kernel_segment seg kernel", &frame_of(Type::KernelSegment, &r_kernel, pv), 1, false, false);
+		}
+		// a failure scripted for a method the arm does not pass through `?` changes nothing; the connection is alive
+		fail(&n, "header_received");
+		n.recv(cx, &format!("@f:header_received ping {} {}", ptd, ph), &pingf, 3, true, false);
+		*n.ad.fail.lock().unwrap() = None;
+		if n.closed {
+			cx.fails += 1;
+			cx.raw("#ORACLE-FAIL C19 glue: a chain error of the adapter (passed on by `?`) closed the connection");
+		}
+		cx.stat("glue: adapter failures in 15 methods");
+	}
+
 	// --- the remaining `Peer::send_*` wrappers: the type byte and the body at the negotiated version
 	let loc = Locator { hashes: (0..cx.rng.below(5)).map(|_| hash32(&mut cx.rng)).collect() };
 	let r = n.peer.send_header_request(loc.hashes.clone());
@@ -729,7 +825,7 @@ pub fn glue(cx: &mut Ctx, work: &std::path::Path) {
 	if cx.thorough {
 		plan.extend_from_slice(&[(true, 1, 0), (true, 3, 8), (false, 2, 0), (false, 1000, 15), (false, u32::MAX, 0), (true, 0, 8)]);
 	}
-	const NEED: usize = 12;
+	const NEED: usize = 18;
 	let segs = seg_store(cx);
 	while cx.pool.len() < NEED * plan.len() {
 		let h = gen_header(&mut cx.rng);
